@@ -24,6 +24,8 @@ rule("C03.c", "variable bounds reach the solver in the right direction; objectiv
 rule("C03.l", "the vector that collects solver results is real-valued by construction: it is created as float (np.zeros(n) / np.array([]) + "
               "hstack) - not with empty_like / zeros_like / full_like of problem data, which inherits the data's dtype (integer costs: every "
               "solution written into it is truncated, the returned point violates its rows and is not optimal)", floor=1, props=["C03", "C14"])
+rule("C18.g", "the duals reported for a row type are the dual values of that type's own constraint object; they are not cut out of the dual vector "
+              "of a joint block by counting letters of cType (the order of the rows in the block is the matrix order, not the order of the cut)", floor=1)
 rule("C18.e", "sign of the reported nodal price: the report negates the dual of the nodal rows written as `A_N x == b_N` in a maximisation of "
               "-c'x. The four signs belong together - orientation of the equality (cvxpy's dual belongs to lhs - rhs), sign of c in the objective, "
               "direction of optimisation, sign in the report: their product is what it is on the confirmed tree; a single flip reports the negative "
@@ -263,7 +265,7 @@ def _stmts_in(body):
     return list(au.walk_stmts(body))
 
 
-@analysis("translation", ["C03.a", "C03.b", "C01.c", "C03.c", "C03.d", "C03.e", "C03.i", "C03.j", "C14.m", "C18.d", "C03.k", "C18.e", "C03.l"])
+@analysis("translation", ["C03.a", "C03.b", "C01.c", "C03.c", "C03.d", "C03.e", "C03.i", "C03.j", "C14.m", "C18.d", "C03.k", "C18.e", "C03.l", "C18.g"])
 def run(ctx):
     p = ctx.p
     opt = p.cls("OptimProblem").methods.get("optimize")
@@ -661,6 +663,20 @@ def run(ctx):
                "values divided by that factor - with a penalty price of 2e7 in the portfolio every nodal price is too small by a factor of 20, an "
                "injection raises the optimum by far more than price x d" % (", ".join(sorted(factors)), au.short(p.enclosing_stmt(dual_reads[0][1]), 60)),
                node=st)
+
+    # ================================================================== C18.g duals per constraint object, not cut out of a joint vector
+    cuts = []
+    for x in au.walk_local(opt.node, include_self=False):
+        if isinstance(x, ast.Subscript) and isinstance(x.slice, ast.Slice):
+            inside = [y for b_ in (x.slice.lower, x.slice.upper) if b_ is not None for y in ast.walk(b_)]
+            if any(isinstance(y, ast.Call) and au.method_name(y) == "count" and "cType" in au.U(y.func) for y in inside):
+                cuts.append(x)
+    n_dv = len([x for x in au.walk_local(opt.node, include_self=False) if isinstance(x, ast.Attribute) and x.attr == "dual_value"])
+    ctx.ob("C18.g", opt, "duals are read per constraint object", not cuts and n_dv >= 1,
+           ("%s cuts the duals of one row type out of a joint vector by counting letters of cType: the rows of a joint block are in matrix order "
+            "(inner 'S' rows of a structured asset come before the 'N' rows), a cut in any other order hands the nodal prices the duals of "
+            "other rows (price 10 reported where the marginal value is 25)" % au.short(cuts[0], 60)) if cuts else "no .dual_value read found in optimize()",
+           node=(cuts[0] if cuts else opt.node))
 
     # ================================================================== C18.e sign chain of the nodal price
     s_con = s_obj = s_dir = s_rep = s_con_n = None
